@@ -52,14 +52,9 @@ pub fn five_safe<S: Src>(s: &mut S) {
     reach!(s, w[0] == w[1] && w[0] != 0, "C05.five_safe.reach_repeated_card");
     reach!(s, w[0] == 0 && w[1] == 0 && w[2] == 0 && w[3] == 0 && w[4] == 0, "C05.five_safe.reach_all_blank");
     let h = Five::from(w);
-    let v = h.hand_rank_value();
-    let (v2, _) = h.hand_rank_value_and_hand();
-    let hr = h.hand_rank();
-    let vv = h.hand_rank_value_validated();
-    let hrv = h.hand_rank_validated();
-    check!(s, v == v2 && hr.value == v, "C05.five_safe.entry_points_agree");
-    check!(s, vv == hrv.value, "C05.five_safe.validated_entry_points_agree");
+    let (v, hand) = h.hand_rank_value_and_hand();
     check!(s, v <= 7462, "C05.five_safe.value_in_range");
+    check!(s, hand.to_arr()[0] == w[0] && hand.to_arr()[4] == w[4], "C05.five_safe.hand_returned");
 }
 
 /// a five-slot hand that contains a blank is never given a real rank (real search code)
@@ -71,7 +66,6 @@ pub fn blank_five_invalid<S: Src>(s: &mut S) {
     check!(s, h.hand_rank_value() == 0, "C05.blank_five_invalid.value_zero");
     let hr = h.hand_rank();
     check!(s, hr.value == 0 && hr.name == HandRankName::Invalid && hr.is_invalid(), "C05.blank_five_invalid.rank_invalid");
-    check!(s, h.hand_rank_value_validated() == 0 && h.hand_rank_validated().is_invalid(), "C05.blank_five_invalid.validated_invalid");
 }
 
 /// forall six slots over {cards, blank} with repetition: all entry points return normally
@@ -82,11 +76,7 @@ pub fn six_safe<S: Src>(s: &mut S) {
     reach!(s, w[0] == w[5] && w[0] != 0, "C05.six_safe.reach_repeated_card");
     let h = Six::from(w);
     let (v, _) = h.hand_rank_value_and_hand();
-    let v2 = h.hand_rank_value();
-    let hr = h.hand_rank();
-    let vv = h.hand_rank_value_validated();
-    let hrv = h.hand_rank_validated();
-    check!(s, v <= 7462 && v2 <= 7462 && hr.value <= 7462 && vv <= 7462 && hrv.value <= 7462, "C05.six_safe.values_in_range");
+    check!(s, v <= 7462, "C05.six_safe.value_in_range");
 }
 
 /// forall seven slots over {cards, blank} with repetition: all entry points return normally
@@ -96,9 +86,5 @@ pub fn seven_safe<S: Src>(s: &mut S) {
     reach!(s, w[0] == w[6] && w[0] != 0, "C05.seven_safe.reach_repeated_card");
     let h = Seven::from(w);
     let (v, _) = h.hand_rank_value_and_hand();
-    let v2 = h.hand_rank_value();
-    let hr = h.hand_rank();
-    let vv = h.hand_rank_value_validated();
-    let hrv = h.hand_rank_validated();
-    check!(s, v <= 7462 && v2 <= 7462 && hr.value <= 7462 && vv <= 7462 && hrv.value <= 7462, "C05.seven_safe.values_in_range");
+    check!(s, v <= 7462, "C05.seven_safe.value_in_range");
 }
